@@ -7,6 +7,7 @@ import (
 	"encoding/json"
 	"fmt"
 	"os"
+	"runtime"
 	"runtime/debug"
 	"testing"
 	"time"
@@ -146,7 +147,19 @@ func TestWorker(t *testing.T) {
 			out.Seeds[0] = seed
 		}
 		out.Seeds[1] = seed
+		g0 := runtime.NumGoroutine()
 		res := ps.Run(ps, seed, job.Tier, agg)
+		// O-LIVE: goroutines started by commits/preloads must all have stopped.  A leaked goroutine stays
+		// forever, so this is judged once per run with a lot of patience (no false alarm under load).
+		if ps.isVerdict("live.goroutines") && res.Violation == nil && runtime.NumGoroutine() > g0 {
+			deadline := time.Now().Add(30 * time.Second)
+			for runtime.NumGoroutine() > g0 && time.Now().Before(deadline) {
+				time.Sleep(5 * time.Millisecond)
+			}
+			if n := runtime.NumGoroutine(); n > g0 {
+				res.Violation = &Violation{Class: "live.goroutines", Msg: fmt.Sprintf("%d goroutine(s) started during the run are still alive 30 s after it ended (a commit or preload left workers behind)", n-g0)}
+			}
+		}
 		out.Runs++
 		out.Steps += res.Steps
 		out.Events += res.Events
